@@ -222,12 +222,16 @@ def toOpt {ε α : Type} : Except ε α → Option α
 def ror2Text (K : Consts) (env : Env) (esc : Bytes → Bytes) (ty : Ty) (v : Value) : Option Bytes :=
   (toOpt (encode (wcfg K env) encFuel [] ty v)).map (renderRor2 esc)
 
+/-- a key written directly to the path writer (`ResourcePath()`, `CreatedEntity.marshalId`) -/
+def pathKeyText (K : Consts) (env : Env) (ty : Ty) (v : Value) : Option Bytes :=
+  (toOpt (encode (wcfg K env) encFuel [] ty v)).map (renderRor2Path K.pathEsc)
+
 /-- the path keys on path-flavour writers, outermost first (`none`: a key does not marshal, or the
 caller passed fewer keys than the method's level has) -/
 def keyTexts (K : Consts) (env : Env) : List Ty → List Value → Option (List Bytes)
   | [], _ => some []
   | ty :: tys, k :: ks =>
-    (match ror2Text K env K.pathEsc ty k, keyTexts K env tys ks with
+    (match pathKeyText K env ty k, keyTexts K env tys ks with
     | some t, some ts => some (t :: ts)
     | _, _ => Option.none)
   | _ :: _, [] => Option.none
@@ -741,7 +745,7 @@ def natDoc (n : Nat) : Doc := .int (Int.ofNat n)
 the id on a PATH-flavour writer, written as a string -/
 def createdDoc (K : Consts) (env : Env) (kt : Ty) (schema : Option TName) (c : Created) : Option Doc :=
   let cfg := wcfg K env
-  match ror2Text K env K.pathEsc kt c.id with
+  match pathKeyText K env kt c.id with
   | Option.none => Option.none
   | some idt =>
     let base : List (Bytes × Doc) := [(K.fId, .str idt)] ++
